@@ -564,4 +564,11 @@ def structure_specs(tier):
                                   perfect=perfect, swap=swap, exact_floats=False, timeout_s=900)
                         sp.base = nm
                         out.append(sp)
+        # empty sides: documented arity / scalar type for empty annotations
+        for (n, m) in ((0, 1), (1, 0)):
+            sp = Spec('%s[%s,fs=0.5]' % (nm, 'empty-ref' if n == 0 else 'empty-est'), fn,
+                      b_structure(0.5, 2.0, ['a'] * n, ['A'] * m), outs, {tier: [(n, m)]}, funcs=[nm, 'segment.validate_structure'],
+                      perfect=None, swap=None, exact_floats=False)
+            sp.base = nm
+            out.append(sp)
     return out
